@@ -49,6 +49,12 @@ set_option maxRecDepth 100000 in
 theorem witness_and_null : InfallibleButFails andNull andNullEv := by decide
 
 set_option maxRecDepth 100000 in
+/-- `D_ctor_poststate`: `Predicate::new` checks the predicate's kind in the state after the predicate
+    was compiled (`x` already boolean); `type_info` types it in the state before (`x` a string) -/
+theorem witness_ctor_poststate : InfallibleButFails ctorPost ctorPostEv ∧ nanFreeSeq ctorPost T0 = true := by
+  decide
+
+set_option maxRecDepth 100000 in
 /-- **the full-strength statement of C02 is false of the model**: `true && .a` -/
 theorem not_full : ¬ C02.Full := by
   intro h
